@@ -146,6 +146,19 @@ CHECKS = {
         "are contract stubs ('a value or ValueError' / an arbitrary candidate list). The pretty-printing views of a type-confused record "
         "are not entry points of the property (observation in DESIGN.md).",
         ref="§4 C08"),
+    "C01": dict(
+        text="H1: for EVERY raw file of 0..10/12 fully symbolic bytes, every read-buffer size in {2,5,8}/{1,2,3,5,8,13}, key configuration "
+        "(defaults, caller list of two symbolic keys, all-keys mode on 7..8 bytes) and both file models, BeaconConfig.from_file returns the "
+        "first candidate in (key priority, file offset) order — xorkey, xorencoded, config_block (un-XORed bytes up to 4096/EOF) and settings — "
+        "or raises ValueError exactly when no tried key has a candidate. H4: two blocks under two tried keys in both file orders. H2: with "
+        "the real 8192-byte buffer, a block at a symbolic offset at/around both buffer boundaries, offset 0/1 and end of file, keys "
+        "69/00/a7(+2e), symbolic neighbour bytes and protocol value. H3: the block inside a PE section, raw and as XorEncoded stage, with "
+        "architecture and compile stamp of the embedding image.",
+        note="Trusted: z3; symx; file models; cstruct readers; pe.find_mz_offset replaced by None for files < 88 bytes (lemma instances in the "
+        "same check). In all-keys mode the order of the 253 left-over keys is implementation-defined (the result must be a true first "
+        "candidate of its key; ValueError only if no key at all has one). Settings are compared with BeaconConfig(block), whose decoding "
+        "is C02's subject.",
+        ref="§4 C01"),
 }
 
 NA = {}
